@@ -206,7 +206,11 @@ def build_reply(spec, req, sc, keys=None, model=None, rng=None):
         return bytes.fromhex(spec["raw"])
     pdu_req = req.get("pdu") or {}
     rid = spec.get("rid", "same")
-    rid = pdu_req.get("request_id", 0) if rid == "same" else int(rid)
+    if isinstance(rid, str) and rid.startswith("same"):
+        # "same", "same-2147483648", "same+4294967296": the outstanding id, optionally shifted
+        rid = pdu_req.get("request_id", 0) + (int(rid[4:]) if len(rid) > 4 else 0)
+    else:
+        rid = int(rid)
     vbs = bytes.fromhex(spec.get("vbs", ""))
     tag = int(spec.get("pdu_tag", 0xA2))
     if "pdu_raw" in spec:
@@ -225,7 +229,10 @@ def build_reply(spec, req, sc, keys=None, model=None, rng=None):
     else:
         c = sc["v3"]
         msgid = spec.get("msgid", "same")
-        msgid = req.get("msg_id", 0) if msgid == "same" else int(msgid)
+        if isinstance(msgid, str) and msgid.startswith("same"):
+            msgid = req.get("msg_id", 0) + (int(msgid[4:]) if len(msgid) > 4 else 0)
+        else:
+            msgid = int(msgid)
         user = spec.get("user", "same")
         if user == "same":
             user = req["user"] if isinstance(req.get("user"), (bytes, bytearray)) else c["user"].encode()
